@@ -38,7 +38,8 @@ PLAN = {
     'thorough': {'workers': 16, 'budget_s': 600, 'sampled_per_worker': 8000,
                  'wall_limit_s': 7200},
 }
-FAULTS = ['ctor_raise', 'td_raise', 'td_hang', 'td_hang_unkillable', 'td_slow']
+FAULTS = ['ctor_raise', 'ctor_exit', 'td_raise', 'td_hang', 'td_hang_unkillable',
+          'td_slow']
 
 
 def setup():
@@ -168,9 +169,10 @@ def run_case(case):
     if len(es) > 1:
       bad('plug-constructed-twice', plug=idx, n=len(es))
   instance = {idx: es[0][4] for idx, es in by_idx.items()
-              if faults.get(str(idx)) != 'ctor_raise'}
+              if faults.get(str(idx)) not in ('ctor_raise', 'ctor_exit')}
   c['plugs_constructed'] = len(instance)
-  fired_ctor = [idx for idx in by_idx if faults.get(str(idx)) == 'ctor_raise']
+  fired_ctor = [idx for idx in by_idx
+                if faults.get(str(idx)) in ('ctor_raise', 'ctor_exit')]
   c['ctor_faults_fired'] = len(fired_ctor)
   # 2. every phase received the run's instance under the requested name
   hung = {(e[3], e[4]) for e in ev if e[2] == 'hang'}
@@ -247,7 +249,14 @@ def run_case(case):
     if later:
       bad('phase-executed-after-plug-constructor-failure', phases=later[:4])
     if real['outcome'] != 'ERROR':
-      bad('constructor-failure-outcome-not-ERROR', outcome=real['outcome'])
+      only_exit = all(faults.get(str(i)) == 'ctor_exit' for i in fired_ctor)
+      failed_rec = any(p[1] == 'FAIL' for p in real.get('phases') or [])
+      if only_exit and real['outcome'] == 'FAIL' and failed_rec:
+        # SystemExit from the constructor after a FAIL record (known finding)
+        bad('constructor-exit-after-FAIL-record-outcome-FAIL',
+            outcome=real['outcome'])
+      else:
+        bad('constructor-failure-outcome-not-ERROR', outcome=real['outcome'])
   else:
     if real['outcome'] != model['outcome'] and not model['crash']:
       bad('plug-faults-changed-the-outcome', got=real['outcome'],
